@@ -23,6 +23,9 @@ model's heap-use-after-free, `Fault.oob`).
 | `listAssignMove`      | `intrusive/list_impl.hpp`  `operator=(list&&)` (after commit dcbe9a0)    |
 | `listDtor`            | `intrusive/list_impl.hpp`  `~list() = default` (destroys `head_`)        |
 | `walk`, `walkBack`    | `intrusive/iterator_impl.hpp` `increment` / `decrement` from `begin()` / `end()` |
+| `Iter`, `iterDefault`, `iterAt`, `listBegin`, `listEnd`, `iterIncrement`, `iterDecrement`, `iterDeref`, `iterEqual`, `iterPostInc`, `iterPostDec`, `iterAdvance` | `intrusive/iterator_impl.hpp` (every member), `intrusive/list_impl.hpp` `begin()/end()` (const and non-const have the same body), `iterator/base_impl.hpp` `operator++(int)`, `operator--(int)` |
+| `Sig.callVoid`        | `signal/object_impl.hpp`  `object<void(Args...), Base>::operator()` (range-for over `connections()`) |
+| `Hold.*`              | owners of `fcppt::signal::auto_connection` (= `fcppt::unique_ptr<connection>`): `optional_auto_connection`, `auto_connection_container` (= `std::vector<auto_connection>`) |
 | `Sig.*`               | `signal/base_impl.hpp`, `signal/unregister/base_impl.hpp`, `signal/object_impl.hpp`, `signal/detail/concrete_connection_impl.hpp`, `signal/unregister/detail/concrete_connection_impl.hpp` |
 -/
 namespace Fcppt.C11
@@ -186,6 +189,69 @@ def walkBack (σ : Store) (h : Node) (fuel : Nat) : M (List Node) := do
   let b ← rdPrev σ h
   walkBackFrom σ h fuel b
 
+
+/-! ## Iterators as objects (`intrusive/iterator_impl.hpp`)
+
+`fcppt::intrusive::iterator<Type>` holds one pointer `cur_`.  `iterator<Type>` and
+`iterator<Type const>` are the same template (only the pointee is const), `list::begin() const` /
+`end() const` have the same bodies as the non-const overloads. -/
+
+/-- `cur_`; `none` = the default-constructed iterator (`cur_{nullptr}`) -/
+abbrev Iter := Option Node
+
+/-- `iterator() : cur_{nullptr}` -/
+def iterDefault : Iter := none
+/-- `explicit iterator(pointer_type _cur) : cur_{_cur}` -/
+def iterAt (n : Node) : Iter := some n
+/-- `list::begin()`: `iterator{this->head_.next_}` -/
+def listBegin (σ : Store) (h : Node) : M Iter := do
+  let n ← rdNext σ h
+  .ok (some n)
+/-- `list::end()`: `iterator{&this->head_}` -/
+def listEnd (h : Node) : Iter := some h
+/-- `increment()`: `cur_ = cur_->next_` -/
+def iterIncrement (σ : Store) : Iter → M Iter
+  | none => .error .emptyDeref
+  | some c => do
+    let n ← rdNext σ c
+    .ok (some n)
+/-- `decrement()`: `cur_ = cur_->prev_` -/
+def iterDecrement (σ : Store) : Iter → M Iter
+  | none => .error .emptyDeref
+  | some c => do
+    let p ← rdPrev σ c
+    .ok (some p)
+/-- `equal(other)`: `cur_ == _other.cur_` -/
+def iterEqual (a b : Iter) : Bool := a == b
+/-- `dereference()`: `static_downcast<reference>(*cur_)` — only the hook of a live element is a `Type`
+(the result is the element's number) -/
+def iterDeref (σ : Store) : Iter → M Nat
+  | none => .error .emptyDeref
+  | some (.head _) => .error .oob
+  | some (.elem e) => if σ.live (.elem e) then .ok e else .error .oob
+/-- `iterator::base::operator++(int)`: `derived temp{get()}; ++*this; return temp;` — (returned, new `*this`) -/
+def iterPostInc (σ : Store) (it : Iter) : M (Iter × Iter) := do
+  let temp := it
+  let it ← iterIncrement σ it
+  .ok (temp, it)
+/-- `iterator::base::operator--(int)` -/
+def iterPostDec (σ : Store) (it : Iter) : M (Iter × Iter) := do
+  let temp := it
+  let it ← iterDecrement σ it
+  .ok (temp, it)
+/-- `n` increments -/
+def iterAdvance (σ : Store) : Nat → Iter → M Iter
+  | 0, it => .ok it
+  | n + 1, it => do
+    let it ← iterIncrement σ it
+    iterAdvance σ n it
+/-- `n` decrements -/
+def iterRetreat (σ : Store) : Nat → Iter → M Iter
+  | 0, it => .ok it
+  | n + 1, it => do
+    let it ← iterDecrement σ it
+    iterRetreat σ n it
+
 /-! ## Operations of a history -/
 
 inductive Op where
@@ -254,7 +320,7 @@ structure State where
 def State.empty : State := ⟨Store.empty, fun _ => none, fun _ => none, fun _ => 0⟩
 
 inductive Op where
-  | newSig (s c : Nat)                       -- `object(combiner_c)`
+  | newSig (s : Nat) (c : Option Nat)       -- `object(combiner_c)`; `none`: the combiner-less `object<void(Args...)>::object()`
   | connect (x s f : Nat) (u : Option Nat)   -- `x = s.connect(f [, u])`
   | disconnect (x : Nat)                     -- `x.reset()` : `~concrete_connection`
   | moveCtor (s' s : Nat)                    -- `object(object&&) = default`
@@ -282,7 +348,7 @@ def lifetimeOk (st : State) : Op → Bool
 def step (st : State) : Op → M State
   | .newSig s c => do
     let σ ← listCtorDefault st.store s
-    .ok { st with store := σ, combiner := fun i => if i = s then some c else st.combiner i }
+    .ok { st with store := σ, combiner := fun i => if i = s then c else st.combiner i }
   | .connect x s f u => do
     -- make_unique<concrete_connection>(connections_, f [, u]): base_type{_list}, function_, unregister_
     let σ ← baseCtorList st.store (.elem x) (.head s)
@@ -337,6 +403,156 @@ def call (cb : Nat → Nat → Nat) (comb : Nat → Nat → Nat → Nat) (st : S
   | _, none => .error .emptyDeref       -- moved-from combiner (`std::bad_function_call`)
   | _, some c => .ok (fs, fs.foldl (fun acc f => comb c acc (cb f arg)) init)
 
+/-- `object<void(Args...), Base>::operator()(args)`:
+`for (auto &item : base::connections()) { item.function()(_args...); }` — the loop itself, callback by
+callback (`log` = the callbacks invoked so far); `fuel` bounds the number of iterations. -/
+def callVoidFrom (st : State) (h : Node) : Nat → Node → List Nat → M (List Nat)
+  | 0, cur, log => if cur = h then .ok log else .error .fuel
+  | fuel + 1, cur, log =>
+    if cur = h then .ok log else do                     -- it != end()
+      let x ← iterDeref st.store (some cur)             -- auto &item = *it
+      let f ← match st.conn x with                      -- item.function()(_args...)
+        | some c => (.ok c.callback : M Nat)
+        | none => .error .oob
+      let n ← rdNext st.store cur                       -- ++it
+      callVoidFrom st h fuel n (log ++ [f])
+
+def callVoid (st : State) (s fuel : Nat) : M (List Nat) := do
+  let b ← rdNext st.store (.head s)                     -- begin()
+  callVoidFrom st (.head s) fuel b []
+
 end Sig
+
+/-! ## Owners of connections
+
+`connect` returns an `fcppt::signal::auto_connection` (= `fcppt::unique_ptr<fcppt::signal::connection>`); the
+connection object lives until its owner lets go of it.  Owners are `optional_auto_connection`s (at most one
+connection) and `auto_connection_container`s (`std::vector<auto_connection>`, any number, in order).  Moving
+an `auto_connection` between owners does not touch the connection object; destroying or overwriting an
+owner's slot runs `~concrete_connection` (`Sig.Op.disconnect`). -/
+namespace Hold
+
+structure State where
+  sig : Sig.State
+  own : Nat → List Nat            -- the connections held by owner `o`, in order
+
+def State.empty : State := ⟨Sig.State.empty, fun _ => []⟩
+
+inductive Op where
+  | sig (op : Sig.Op)                        -- a signal operation other than connect / disconnect
+  | connect (o x s f : Nat) (u : Option Nat) -- `owner_o.push_back(s.connect(f [, u]))`  (for an optional: `o = optional{…}`)
+  | release (o i : Nat)                      -- the `i`-th `auto_connection` of `o` is destroyed (`reset`, `erase(begin()+i)`)
+  | clear (o : Nat)                          -- all of them, front to back (`clear()`, `~vector`, assignment over `o`)
+  | transfer (o i o' : Nat)                  -- the `i`-th `auto_connection` of `o` is moved to the back of `o'`
+  | swap (o o' : Nat)                        -- `std::swap(owner_o, owner_o')`
+  deriving Repr, DecidableEq
+
+def setOwn (own : Nat → List Nat) (o : Nat) (l : List Nat) : Nat → List Nat := fun i => if i = o then l else own i
+
+/-- destroy the connections `xs` one after the other -/
+def killAll (st : Sig.State) : List Nat → M Sig.State
+  | [] => .ok st
+  | x :: xs => do
+    let st ← Sig.step st (.disconnect x)
+    killAll st xs
+
+/-- the connection objects an operation destroys, in order -/
+def deaths (st : State) : Op → List Nat
+  | .release o i => ((st.own o)[i]?).toList
+  | .clear o => st.own o
+  | _ => []
+
+def step (st : State) : Op → M State
+  | .sig op =>
+    match op with
+    | .connect .. => .error .uninit        -- not an operation of this layer (see `valid`)
+    | .disconnect .. => .error .uninit
+    | op => do
+      let s ← Sig.step st.sig op
+      .ok { st with sig := s }
+  | .connect o x s f u => do
+    let sg ← Sig.step st.sig (.connect x s f u)
+    .ok { sig := sg, own := setOwn st.own o (st.own o ++ [x]) }
+  | .release o i =>
+    match (st.own o)[i]? with
+    | none => .error .oob
+    | some x => do
+      let sg ← Sig.step st.sig (.disconnect x)
+      .ok { sig := sg, own := setOwn st.own o ((st.own o).eraseIdx i) }
+  | .clear o => do
+    let sg ← killAll st.sig (st.own o)
+    .ok { sig := sg, own := setOwn st.own o [] }
+  | .transfer o i o' =>
+    match (st.own o)[i]? with
+    | none => .error .oob
+    | some x =>
+      if o' = o then .ok { st with own := setOwn st.own o ((st.own o).eraseIdx i ++ [x]) }
+      else .ok { st with own := setOwn (setOwn st.own o ((st.own o).eraseIdx i)) o' (st.own o' ++ [x]) }
+  | .swap o o' =>
+    .ok { st with own := fun i => if i = o then st.own o' else if i = o' then st.own o else st.own i }
+
+/-! ### callbacks with effects (a call that changes the set of connections while it runs)
+
+A callback may, while the signal is being called, let go of a connection (its own excepted) or connect a new callback.
+Both `operator()`s are range-`for` loops over `connections()`: `end()` is read once (it is the address of the head), the
+callback runs, and only then `++it` reads `cur_->next_` — in the list as the callback left it. -/
+
+/-- what a callback does besides returning its value -/
+inductive Act where
+  | none
+  | reset (o : Nat)                              -- `owner_o = {}` / `owner_o.clear()`
+  | connect (h s f : Nat) (u : Option Nat)       -- `holder_h = optional_auto_connection{s.connect(f [, u])}` if `holder_h` is free
+  deriving Repr, DecidableEq
+
+/-- the operations on the connection lists that an action performs in state `st` (ghost trace for the specification) -/
+def actOps (st : State) : Act → List Fcppt.C11.Op
+  | .none => []
+  | .reset o => (st.own o).map Fcppt.C11.Op.delElem
+  | .connect h s _ _ =>
+    if (st.own h).isEmpty && !st.sig.store.live (.elem h) && st.sig.store.live (.head s) then [.newElem h s] else []
+
+def runAct (st : State) : Act → M State
+  | .none => .ok st
+  | .reset o => step st (.clear o)
+  | .connect h s f u =>
+    if (st.own h).isEmpty && !st.sig.store.live (.elem h) && st.sig.store.live (.head s) then step st (.connect h h s f u)
+    else .ok st
+
+/-- result of a call: final program state, callbacks invoked (in order), accumulator, trace of list operations performed -/
+structure CallResult where
+  st : State
+  log : List Nat
+  acc : Nat
+  trace : List Fcppt.C11.Op
+
+/-- the loop of `operator()` with effectful callbacks.  `comb = none`: the void specialisation (no accumulator). -/
+def callLoop (act : Nat → Act) (cb : Nat → Nat → Nat) (comb : Option (Nat → Nat → Nat)) (arg : Nat) (h : Node) :
+    Nat → Node → CallResult → M CallResult
+  | 0, cur, r => if cur = h then .ok r else .error .fuel
+  | fuel + 1, cur, r =>
+    if cur = h then .ok r else do                               -- it != end()
+      let x ← iterDeref r.st.sig.store (some cur)               -- auto &item = *it
+      let f ← match r.st.sig.conn x with                        -- item.function()
+        | some c => (.ok c.callback : M Nat)
+        | none => .error .oob
+      let st ← runAct r.st (act f)                              -- …(args...): the callback runs
+      let acc := match comb with
+        | some g => g r.acc (cb f arg)                          -- combiner_(std::move(state), result)
+        | none => r.acc
+      let n ← rdNext st.sig.store cur                           -- ++it, in the list as the callback left it
+      callLoop act cb comb arg h fuel n ⟨st, r.log ++ [f], acc, r.trace ++ actOps r.st (act f)⟩
+
+/-- `s(initial, arg)` / `s(arg)` with effectful callbacks; a non-void signal needs its combiner as soon as there is a
+connection (`std::bad_function_call` otherwise, as in `Sig.call`) -/
+def rcall (act : Nat → Act) (cb : Nat → Nat → Nat) (comb : Nat → Nat → Nat → Nat) (isVoid : Bool) (st : State)
+    (s fuel init arg : Nat) : M CallResult := do
+  let b ← rdNext st.sig.store (.head s)                         -- begin()
+  if b = .head s then .ok ⟨st, [], init, []⟩ else
+  if isVoid then callLoop act cb none arg (.head s) fuel b ⟨st, [], init, []⟩
+  else match st.sig.combiner s with
+    | none => .error .emptyDeref
+    | some c => callLoop act cb (some (comb c)) arg (.head s) fuel b ⟨st, [], init, []⟩
+
+end Hold
 
 end Fcppt.C11
